@@ -394,6 +394,38 @@ theorem binaryV_eq (E : Env) (op : BOp) (lv rv : Vl) (log : List String) (hl : W
     simp only [binaryV, binary, Spec.binary, getValue, bind_ok]
     cases rv <;> simp only [stringV_eq, getProperty_eq]
 
+/-! ## The internal kind of an operand is irrelevant -/
+
+/-- A number Value keeps the Go type it was made with (int32 out of `|`, uint32 out of `>>>`, int for `.length`,
+    uint16 for charCodeAt, int64 for literals, whatever the embedder set): for ALL 11 arithmetic / bitwise / shift
+    operators the result is what ES5 computes from the two NUMBER VALUES alone – the kind tags do not matter. -/
+theorem binNum_kind_irrelevant (E : Env) (o : BinOp) (x y : Val) (hx : WF x) (hy : WF y) :
+    binNum E o x y = Spec.binNum E o (.f64 (Spec.toNumber E x)) (.f64 (Spec.toNumber E y)) := by
+  rw [binNum_eq E o x y hx hy, spec_binNum_f64_l, spec_binNum_f64_r]
+
+/-- two operands denoting the same numbers give the same result, whatever their kinds -/
+theorem binNum_same_numbers (E : Env) (o : BinOp) (x y x' y' : Val) (hx : WF x) (hy : WF y) (hx' : WF x') (hy' : WF y')
+    (h1 : toFloat E x = toFloat E x') (h2 : toFloat E y = toFloat E y') : binNum E o x y = binNum E o x' y' := by
+  rw [binNum_kind_irrelevant E o x y hx hy, binNum_kind_irrelevant E o x' y' hx' hy', ← toNumber_eq, ← toNumber_eq,
+    ← toNumber_eq, ← toNumber_eq, h1, h2]
+
+/-- the result of `+ - * / %` is float64-kinded (so it keeps the sign of a zero and is printed by the float
+    formatter), that of `& | ^ << >>` int32-kinded and of `>>>` uint32-kinded (small integers: FormatInt prints
+    the digits of the double) -/
+theorem binNum_result_kind (E : Env) (o : BinOp) (x y : Val) :
+    (∃ r, binNum E o x y = .f64 r) ∨ (∃ i, binNum E o x y = .int .i32 i) ∨ (∃ i, binNum E o x y = .int .u32 i) := by
+  cases o <;> simp [binNum]
+
+theorem binNum_arith_float (E : Env) (o : BinOp) (ho : o = .add ∨ o = .sub ∨ o = .mul ∨ o = .div ∨ o = .rem) (x y : Val) :
+    ∃ r, binNum E o x y = .f64 r := by
+  rcases ho with h | h | h | h | h <;> subst h <;> exact ⟨_, rfl⟩
+
+/-- comparisons of two numbers depend on the number values only -/
+theorem comparison_kind_irrelevant (E : Env) (c : Cmp) (x y : Val) (hx : Spec.isNum x = true) (hy : Spec.isNum y = true) :
+    calculateComparison E c x y = Spec.compare E Spec.unitLt c (.f64 (Spec.toNumber E x)) (.f64 (Spec.toNumber E y)) := by
+  rw [comparison_eq]
+  cases x <;> simp [Spec.isNum] at hx <;> cases y <;> simp [Spec.isNum] at hy <;> cases c <;> rfl
+
 /-! ## Operator results are well formed (so that results can be operands again) -/
 
 theorem wrapS32_range (z : Int) : -(2^31 : Int) ≤ wrapS 32 z ∧ wrapS 32 z < 2^31 := by
